@@ -1224,6 +1224,7 @@ def shrink(sim, cls, case, fp):
                 break
             i, changed = len(best["ops"]) - 1, False    # another pass: an earlier drop may have made a later one possible
             continue
+        i = min(i, len(best["ops"]) - 1)
         sp = with_span(best)
         if sp and i in sp:
             i -= 1
